@@ -102,6 +102,9 @@ BASES = [
     {"#e": ["a"]}, {"#e": ["b"]}, {"#e": ["a", "b"]}, {"#e": ["ab"]}, {"#e": [""]}, {"#e": ["a"], "kinds": [1]}, {"#e": ["a"], "authors": [PK["7"]]},
     {"#e": ["a"], "kinds": [2], "authors": [PK["f"]]},
     {"#p": [PK["0"]]},
+    # plans in which the author+kind index is scanned BEFORE the tag index (cardinality x number of matches decides the order)
+    {"authors": [PK["0"], PK["7"], PK["f"]], "kinds": [0, 1, 2, 256], "#e": ["a", "b"]},
+    {"authors": [PK["0"], PK["7"], PK["f"]], "kinds": [1, 2], "#e": ["a"]},
     {"#e": ["A"]}, {"#e": [META]}, {"#e": ["\u00e9\u4e2d"]}, {"#e": ["a"], "#p": [PK["0"]]}, {"#e": ["a", "b"], "#p": [PK["0"]]}, {"#e": ["a", "A"]},
     {"ids": [ID0]}, {"ids": [IDF]}, {"ids": [ID0, IDF]}, {"ids": [ID0], "kinds": [1]}, {"ids": [ID0], "kinds": [2]},
 ]
